@@ -470,7 +470,7 @@ func Explore(t *testing.T, cfg *Config, res *vk.Result, deadline time.Time) {
 			runtime.GC()
 		}
 		r := runOne(t, cfg, it.prefix)
-		for retry := 0; r.diverged != "" && retry < 12; retry++ {
+		for retry := 0; r.diverged != "" && retry < 40; retry++ {
 			// rare runtime-level nondeterminism (GC, preemption) can reorder freshly
 			// spawned goroutines; the same prefix is simply run again
 			sc.Nontrivial++ // counts divergence retries
